@@ -208,8 +208,8 @@ def run_web(table, steps, stats, report):
     try:
         status, text = http_request(port, 'GET', '/', {})
         report('web/answers-after-webc', case, expected='connection refused', observed=f'{status} {text[:40]}')
-    except OSError:
-        pass
+    except (OSError, http.client.HTTPException):
+        pass        # refused, or not an HTTP peer (a connect to a closed local port can connect the socket to itself)
 
 
 def handlers():
